@@ -51,6 +51,8 @@ func init() {
 type liveNode struct {
 	idx  int
 	gen  int
+	// queues: sockets / reader routines this incarnation runs (1 unless the run uses udp.TesterMultiReader)
+	queues int
 	name string
 	ctl  *nebula.Control
 	cfg  *config.C
@@ -173,20 +175,27 @@ func (w *liveWorld) newNode(i, gen int, crt cert.Certificate, key []byte, ov m) 
 	addr := nd.udp.Addr()
 	ctl.SetLocalAddrsFn(func(*nebula.LocalAllowList) []netip.Addr { return []netip.Addr{addr} })
 	// drain what the node emits, so that its writers never block on the channel-backed socket and tun
-	txc, tunc := ctl.GetUDPTxChan(), ctl.GetTunTxChan()
-	go func() {
-		for {
-			select {
-			case <-nd.quit:
-				return
-			case p := <-txc:
-				nd.mu.Lock()
-				nd.udpOut = append(nd.udpOut, p.Copy())
-				nd.mu.Unlock()
-				p.Release()
+	tunc := ctl.GetTunTxChan()
+	txcs := ctl.GetUDPTxChans() // one socket per reader routine when the run uses several (udp.TesterMultiReader)
+	nd.queues = 1
+	if udp.TesterMultiReader.Load() {
+		nd.queues = len(txcs) // (without it Main still opens `routines` sockets, but only the first one has a reader)
+	}
+	for _, txc := range txcs {
+		go func() {
+			for {
+				select {
+				case <-nd.quit:
+					return
+				case p := <-txc:
+					nd.mu.Lock()
+					nd.udpOut = append(nd.udpOut, p.Copy())
+					nd.mu.Unlock()
+					p.Release()
+				}
 			}
-		}
-	}()
+		}()
+	}
 	go func() {
 		for {
 			select {
@@ -443,6 +452,11 @@ func runLive(rc *sk.RunCtx, focus string) {
 	tp := rc.Tape
 	w := &liveWorld{rc: rc, tp: tp, focus: focus, start: time.Now(), blocked: map[[2]int]bool{}, kinds: map[string]int{}, connsAtStart: udp.TesterConnsOpen()}
 	n := 2 + tp.Choose(3)
+	// half of the runs let `routines` > 1 mean what it means on Linux: that many sockets, each with its own reader
+	// goroutine (the test double's default is one reader whatever the setting)
+	multi := tp.Chance(1, 2)
+	udp.TesterMultiReader.Store(multi)
+	defer udp.TesterMultiReader.Store(false)
 	w.useLH = n > 2 && tp.Chance(3, 4)
 	curve := cert.Curve_CURVE25519
 	if tp.Chance(1, 5) {
@@ -511,11 +525,34 @@ func runLive(rc *sk.RunCtx, focus string) {
 		for i := range w.nodes {
 			if ps := due[i]; len(ps) > 0 {
 				ctl := w.nodes[i].ctl
-				ss = append(ss, &stim{name: fmt.Sprintf("deliver:n%d", i), node: i, run: func() {
+				nq := w.nodes[i].queues
+				if nq <= 1 {
+					ss = append(ss, &stim{name: fmt.Sprintf("deliver:n%d", i), node: i, run: func() {
+						for _, p := range ps {
+							ctl.InjectUDPPacket(p)
+						}
+					}})
+				} else {
+					// several reader routines: the kernel spreads datagrams over the sockets (by flow hash, which a
+					// roaming or multi-homed peer changes at will): each packet goes to a tape-chosen socket, one
+					// delivering goroutine per socket, so packets of one tunnel meet in different readers at once
+					perQ := make([][]*udp.Packet, nq)
 					for _, p := range ps {
-						ctl.InjectUDPPacket(p)
+						q := tp.Choose(nq)
+						perQ[q] = append(perQ[q], p)
 					}
-				}})
+					for q, qs := range perQ {
+						if len(qs) == 0 {
+							continue
+						}
+						ss = append(ss, &stim{name: fmt.Sprintf("deliver:n%d.q%d", i, q), node: i, run: func() {
+							for _, p := range qs {
+								ctl.InjectUDPPacketOn(q, p)
+							}
+						}})
+					}
+					rc.Count("probe.multi_reader_deliveries", int64(len(ps)))
+				}
 				rc.Count("net.delivered", int64(len(ps)))
 			}
 		}
@@ -827,9 +864,12 @@ func (w *liveWorld) checkStopped(nd *liveNode) bool {
 	var done atomic.Bool
 	ctl := nd.ctl
 	p := &udp.Packet{To: nd.udp, From: underlayOf(9), Data: []byte{0, 0, 0, 0, 0, 0, 0, 0, 0, 0, 0, 0, 0, 0, 0, 0}}
+	nq := max(1, nd.queues)
 	go func() {
-		for i := 0; i < 12; i++ {
-			ctl.InjectUDPPacket(p)
+		for q := 0; q < nq; q++ { // every socket the node opened
+			for i := 0; i < 12; i++ {
+				ctl.InjectUDPPacketOn(q, p)
+			}
 		}
 		done.Store(true)
 	}()
